@@ -184,11 +184,16 @@ structure Incomplete where
   range : Option Range
   corr : Option RawData         -- `self._correlation` (exists iff `ND_Cp_data` is non-empty)
 
+/-- `ThermochemBase.__init__` (base.py:28-43): `assert range[1] >= range[0]` -/
+def baseInitOk (range : Option Range) : Bool :=
+  match range with
+  | none => true
+  | some r => decide (r.2 ≥ r.1)
+
 /-- `ThermochemIncomplete.__init__` + `_setup_correlation` (incomplete.py:59-65, 74-83) -/
 def Incomplete.mk (ip : Interp) (Href Sref : Option Rat) (cp : List Pt) (Tref : Rat) (range : Option Range) :
     Except Err Incomplete :=
-  let baseOk : Bool := match range with | none => true | some r => decide (r.2 ≥ r.1)
-  if !baseOk then .error .assertion
+  if baseInitOk range = false then .error .assertion
   else
     match cp with
     | [] => .ok { Href := Href, Sref := Sref, cp := [], Tref := Tref, range := range, corr := none }
@@ -274,8 +279,7 @@ structure Estimate where
 /-- `ThermochemGroupAdditive.__init__` (group_data.py:49-77; UQ part not modelled) -/
 def Estimate.mk (cors : List (Incomplete × Rat)) : Except Err Estimate :=
   let r := estRange (cors.map (fun c => c.1.range))
-  let baseOk : Bool := match r with | none => true | some r => decide (r.2 ≥ r.1)
-  if !baseOk then .error .assertion else .ok { cors := cors, range := r }
+  if baseInitOk r = false then .error .assertion else .ok { cors := cors, range := r }
 
 /-- `sum(count*correlation.get_X(T) for (correlation, count) in self.correlations)`:
 left to right, the first exception ends the evaluation; warnings accumulate -/
